@@ -69,12 +69,16 @@ def unavailable(engine, why, t0):
 
 def first_repo_frame(text):
     m = re.search(r"(/repo/rust/[^\s:]+:\d+)", text)
-    return m.group(1) if m else ""
+    if m:
+        return m.group(1)
+    # valgrind prints `function (file.rs:line)` without the directory
+    m = re.search(r"(altrios_core::[^\n(]*?)\s*\(([\w\-]+\.rs:\d+)\)", text)
+    return f"{m.group(2)} in {m.group(1).strip()}" if m else ""
 
 
 def violation(prop, engine, kind, text, workload):
     frame = first_repo_frame(text)
-    where = re.sub(r".*/src/", "", frame) if frame else "no_repo_frame"
+    where = re.sub(r".*/src/", "", frame).split(" in ")[0] if frame else "no_repo_frame"
     return {"property": prop, "clause": "sanitizer_report", "signature": f"{prop}:{engine}:{kind}:{where}",
             "message": f"{engine} reported {kind} while running `{workload}`" + (f" (first frame in the repository: {frame})" if frame else ""),
             "case": None, "variant": engine, "detail": {"report_tail": text[-3000:], "workload": workload}}
@@ -171,7 +175,11 @@ def summarize(engine, prop, results, kind_of_report, t0, extra=None):
             if kind is None:
                 # workload oracle (assert in avs) or a panic in the code under test
                 m = re.search(r"panicked at ([^\n]*)\n([^\n]*)", err)
-                kind = "workload_oracle_or_panic:" + (re.sub(r"[0-9]+\.[0-9]+", "N", m.group(2))[:80] if m else f"exit_{rc}")
+                if not m:
+                    # the tool itself failed (unsupported operation, unrecognised instruction, killed): no verdict
+                    inconclusive.append(f"{engine}: `{label}` exited with {rc} without a tool report or a panic: " + (err.strip().splitlines()[-1][:200] if err.strip() else ""))
+                    continue
+                kind = "workload_oracle_or_panic:" + re.sub(r"[0-9]+\.[0-9]+", "N", m.group(2))[:80]
             reports += 1
             violations.append(violation(prop, engine, kind, err + out, label))
     cov = {}
@@ -190,6 +198,7 @@ def summarize(engine, prop, results, kind_of_report, t0, extra=None):
     if any(w["kind"] == "BATCH" for w in workloads):
         cov[f"{engine}.batch_walks"] = sum(1 for w in workloads if w["kind"] == "BATCH")
         cov[f"{engine}.batch_elements_compared_with_serial"] = sum(int(w.get("compared", 0)) for w in workloads if w["kind"] == "BATCH")
+        cov[f"{engine}.batch_pool_sizes_seen"] = sorted({int(w.get("workers", 0)) for w in workloads if w["kind"] == "BATCH"})
         cov[f"{engine}.batches_with_a_failing_element"] = sum(1 for w in workloads if w["kind"] == "BATCH" and str(w.get("failing")) in ("true", "True"))
     if extra:
         cov.update(extra)
@@ -217,7 +226,7 @@ def miri_kind(text):
     m = re.search(r"error: Undefined Behavior: ([^\n]{0,80})", text)
     if m:
         return "undefined-behavior:" + re.sub(r"(alloc\d+|<\d+>|0x[0-9a-f]+)", "_", m.group(1))[:60]
-    m = re.search(r"error: (memory leaked|the main thread terminated without waiting|deadlock|unsupported operation)[^\n]*", text)
+    m = re.search(r"error: (memory leaked|the main thread terminated without waiting|deadlock)[^\n]*", text)
     if m:
         return m.group(1).replace(" ", "-")
     if "Data race detected" in text:
@@ -226,10 +235,12 @@ def miri_kind(text):
 
 
 def memcheck_kind(text):
+    k = re.search(r"==\d+== (Invalid (?:read|write) of size \d+|Conditional jump or move depends on uninitialised|Use of uninitialised value|Invalid free|Mismatched free|Source and destination overlap|Process terminating with default action of signal \d+ \(SIG[A-Z]+\))", text)
+    if k:
+        return k.group(1).replace(" ", "-")[:60]
     m = re.search(r"ERROR SUMMARY: (\d+) errors", text)
     if m and int(m.group(1)) > 0:
-        k = re.search(r"==\d+== (Invalid (?:read|write)[^\n]*|Conditional jump[^\n]*|Use of uninitialised[^\n]*|Invalid free[^\n]*|Mismatched free[^\n]*)", text)
-        return (k.group(1) if k else "errors").replace(" ", "-")[:60]
+        return "errors"
     return None
 
 
@@ -338,7 +349,7 @@ def memcheck_dispatch(here, prop, tier, seed):
         return unavailable("memcheck", "bin/avs-rel missing", t0)
     if subprocess.run(["which", "valgrind"], stdout=subprocess.DEVNULL).returncode != 0:
         return unavailable("memcheck", "valgrind not installed", t0)
-    d, err = ensure_fixtures(48, seed + 7)
+    d, err = ensure_fixtures(320, seed)
     if err:
         return unavailable("memcheck", err, t0)
     files = sorted(os.listdir(d))
